@@ -1052,9 +1052,59 @@ def build_enum(idx: int, lay: int, form: str, place: str, nest: str, disabled: f
     return b.finish(sweep_counts=True)
 
 
+def _witnesses() -> dict[str, dict[str, Any]]:
+    """One minimal case per generator flag (the shape that flag switches off); replayed by the
+    runner as known-finding witnesses and always part of the enumerated cases."""
+    out: dict[str, dict[str, Any]] = {"empty-template": {"src": "", "sites": [], "comments": [], "data": [{}]}}
+
+    def one(fn: Callable[[Builder], None]) -> dict[str, Any]:
+        b = Builder(RandChooser(0), 0, frozenset(), max_sites=9)
+        fn(b)
+        return b.finish()
+
+    def zero(b: Builder) -> None:
+        b.emit_tag_site("tag-plural", count_how="var")
+        b.text("\n")
+        b.place_site("output", lambda p: b.emit_site("t-plural", p, 2, "var"))
+        for name in b.vars:
+            b.vars[name] = [0]
+
+    def t_plural(how: str, value: Any) -> Callable[[Builder], None]:
+        def fn(b: Builder) -> None:
+            b.place_site("output", lambda p: b.emit_site("t-plural", p, 2, how))
+            for name in b.vars:
+                b.vars[name] = [value]
+        return fn
+
+    def multiline(b: Builder) -> None:
+        b.comment("hash", True, True)
+        b.text("\n")
+        b.place_site("output", lambda p: b.emit_site("t", p, 2))
+
+    def infix(b: Builder) -> None:
+        b.tag_open("if")
+        b.emit(" ")
+        b.emit_tstring(lambda: b.emit_site("t", "if-arg", 2))
+        b.emit(" == 'never'\n\n or q")
+        b.tag_close()
+        b.simple_tag("endif")
+
+    out["count-zero"] = one(zero)
+    out["count-one"] = one(t_plural("var", 1))
+    out["count-nil"] = one(t_plural("none", None))
+    out["empty-context"] = one(lambda b: b.emit_tag_site("tag-emptyctx"))
+    out["multiline-comment"] = one(multiline)
+    out["infix-lineno"] = one(infix)
+    return out
+
+
+WITNESSES = _witnesses()
+
+
 def enumerate_cases(disabled: frozenset[str]) -> Iterator[dict[str, Any]]:
-    if "empty-template" not in disabled:
-        yield {"src": "", "sites": [], "comments": [], "data": [{}]}
+    for flag in FLAGS:
+        if flag not in disabled:
+            yield WITNESSES[flag]
     yield {"src": "just text\n", "sites": [], "comments": [], "data": [{}]}
     idx = 0
     combos: list[tuple[str, str, str]] = []
@@ -1356,7 +1406,7 @@ class C15(Prop):
         # ---- 5. bookkeeping
         claim = [s for s in case["sites"] if s["claim"]]
         for flag, kinds in (("count-zero", ("t", "tag")), ("count-one", ("t",)), ("count-nil", ("t",))):
-            if flag in disabled and any(s["count"] is not None and s["count"][0] == "var" and s["kind"] in kinds
+            if flag in disabled and flag not in res.excluded and any(s["count"] is not None and s["count"][0] == "var" and s["kind"] in kinds
                                         for s in claim):
                 res.excluded.append(flag)  # the value is missing from this case's count pool
         fams = {s["family"] for s in claim}
@@ -1378,13 +1428,20 @@ class C15(Prop):
 
     @staticmethod
     def _culprit(site: dict[str, Any], all_sites: list[dict[str, Any]], by_site: dict[str, Any]) -> str:
-        """Name the likely root cause of a missed site: the outermost enclosing construct under which
+        """Name the likely root cause of a missed site: the tightest enclosing construct under which
         *every* literal site (at least two) is missing from the extraction, else the site's own
         expression position and innermost construct."""
         chain = site["nest"]
+
+        def group(i: int) -> list[str]:
+            return [s["id"] for s in all_sites if s["claim"] and s["nest"][:i] == chain[:i]]
+
         for i in range(1, len(chain) + 1):
-            group = [s for s in all_sites if s["claim"] and s["nest"][:i] == chain[:i]]
-            if len(group) >= 2 and not any(s["id"] in by_site for s in group):
+            ids = group(i)
+            if len(ids) >= 2 and not any(sid in by_site for sid in ids):
+                # tightest construct that still explains the same set of missing sites
+                while i < len(chain) and group(i + 1) == ids:
+                    i += 1  # noqa: PLW2901
                 return f"{site['kind']}@*/{chain[i - 1]}"
         return site_label(site)
 
